@@ -1,6 +1,8 @@
 SPECIFICATION Spec
 CONSTANTS
-  Bounds <- MCBounds
+  CBounds <- MCCBounds
+  RouteSet <- MCRouteSet
+  ListVariant = "@LISTVARIANT@"
   Vals <- MCVals
   Cumulative = @CUMULATIVE@
   MaxSteps = @MAXSTEPS@
@@ -9,6 +11,6 @@ CONSTANTS
   OutVariant = "@VARIANT@"
 VIEW View
 ACTION_CONSTRAINT EmitEdge
-INVARIANTS Inv ReportIndep
+INVARIANTS Inv ListInv ReportIndep
 PROPERTIES CountsGrow
 CHECK_DEADLOCK FALSE
